@@ -1,4 +1,5 @@
 ---- MODULE MCq ----
 EXTENDS Export
 cRank == [x \in {"s1","s2","o"} |-> CASE x = "s1" -> 2 [] x = "s2" -> 3 [] x = "o" -> 1]
+cShard == [x \in {"p1","p2"} |-> 0]
 ====
